@@ -15,6 +15,8 @@ CONSTANTS
   GuardedConn = TRUE
   PerCycleWG = TRUE
   SubscribeMayFail = FALSE
+  StartMayFail = FALSE
+  ResetOnFailedStart = TRUE
   Script <- MCScriptL
 PROPERTIES ShutdownReturns ServeReturns AcceptedRuns
 CHECK_DEADLOCK FALSE
